@@ -245,8 +245,25 @@ func isMapWriteOf(in ssa.Instruction, field *types.Var) bool {
 	return false
 }
 
-// paramIndex returns the index of v if it is a parameter of its function.
+// paramIndex returns the index of v if it is a parameter of its function,
+// looking through the cell a captured parameter is spilled into
+// (`t0 = new T (p); *t0 = p; … *t0`) when that cell is never reassigned.
 func paramIndex(v ssa.Value) int {
+	if u, ok := v.(*ssa.UnOp); ok && u.Op == token.MUL {
+		if a, ok := u.X.(*ssa.Alloc); ok {
+			var only ssa.Value
+			n := 0
+			for _, r := range *a.Referrers() {
+				if st, ok := r.(*ssa.Store); ok && st.Addr == a {
+					n++
+					only = st.Val
+				}
+			}
+			if n == 1 && !cellWrittenInClosures(a) {
+				v = only
+			}
+		}
+	}
 	p, ok := v.(*ssa.Parameter)
 	if !ok {
 		return -1
@@ -257,6 +274,32 @@ func paramIndex(v ssa.Value) int {
 		}
 	}
 	return -1
+}
+
+// cellWrittenInClosures: does any closure capturing the cell store to it?
+func cellWrittenInClosures(a *ssa.Alloc) bool {
+	for _, r := range *a.Referrers() {
+		mc, ok := r.(*ssa.MakeClosure)
+		if !ok {
+			continue
+		}
+		fn, _ := mc.Fn.(*ssa.Function)
+		if fn == nil {
+			continue
+		}
+		for i, b := range mc.Bindings {
+			if b != a {
+				continue
+			}
+			fv := fn.FreeVars[i]
+			for _, rr := range *fv.Referrers() {
+				if st, ok := rr.(*ssa.Store); ok && st.Addr == fv {
+					return true
+				}
+			}
+		}
+	}
+	return false
 }
 
 // originIs reports whether every origin of v satisfies pred (looking through
